@@ -402,7 +402,7 @@ func (o *c06Obs) After(w *wWorld, st *wStep) *kit.Viol {
 				gone = false
 			}
 		}
-		if gone && actor != tr.Owner {
+		if gone && actor != tr.Owner && !o.faultTaint[tr.Name] {
 			return kit.V("topic-deleted-by-non-owner", "group topic %s was deleted by a request of user %d who is not the owner: %s", tr.Name, st.User, st.Req)
 		}
 		if gone {
@@ -423,6 +423,9 @@ func (o *c06Obs) After(w *wWorld, st *wStep) *kit.Viol {
 			if tr.Name == st.Route {
 				after = fmt.Sprintf("%s|%s|%v/%v|%v", canonJSON(tr.Public), canonJSON(tr.Trusted), tr.Access.Auth, tr.Access.Anon, tr.Tags)
 			}
+		}
+		if o.faultTaint[st.Route] {
+			return nil
 		}
 		if before != "" && before != after && actor != owner {
 			return kit.V("description-changed-by-non-owner", "user %d (not the owner) changed the description/tags of %s: %s => %s by %s", st.User, st.Route, before, after, st.Req)
